@@ -6,7 +6,8 @@ from lib.vlib import *
 META = {
     "property_id": "C16",
     "technique": "Coq proof over a Gallina model of diff/diff.go, diff_slice.go, types.go and function.go:diffEnv "
-                 "+ exhaustive small-pair correspondence of the complete diff tree + Go-side reconstruction oracle",
+                 "+ exhaustive small-pair correspondence of the complete diff tree + Go-side reconstruction oracle "
+                 "+ concurrent-sibling schedules (hand-built and real targets, runner events) against a direct differing-parts oracle",
     "level_text": "Theorems (Coq, all inputs, closed under the global context): DiffDepth returns no diff iff EqualDepth says "
                   "equal; otherwise Old()/New() are the two arguments in the order given; for sequences of ANY relative "
                   "lengths the edit script produced by diffSlice (O(NP) search incl. the swap-to-shorter-first, the restart "
@@ -31,10 +32,18 @@ META = {
                   "script_is_shortest (MINIMALITY, table not exhausted: the elements the script deletes+inserts are at most the "
                   "deletions+insertions of ANY edit path from the origin to the far corner; proof: chain-cost invariant of the "
                   "route table 2p+k / 2p-k+2delta, one walker step per change of diagonal, merge preserves the count). "
+                  "SEVERAL TARGETS AT ONCE (Diff/Sched.v): reason_independent_of_concurrent_targets (the loop of diffEnv that "
+                  "collects the part names, run for any number of targets with its steps interleaved by ANY schedule, builds for "
+                  "each target the reason diffEnv gives for it alone, given a reasons slice per target as in the code); "
+                  "shared_reasons_buffer_depends_on_schedule (the same loop over one shared backing array gives a target a part "
+                  "of its sibling: why the harness checks siblings concurrently). "
                   "The model is tied to the code by comparing the complete diff tree (kinds, splits, payloads, nested "
                   "diffs, dict edit order, Old/New) on every pair of sequences over 3 letters up to length 4 (quick) / 5 "
                   "(thorough) as tuples, <=3/4 as lists, strings, bytes, mixed containers, nested tuples, dict pairs, depth-limit "
-                  "cases, random longer sequences, and diffEnv on all subsets of the listed keys.",
+                  "cases, random longer sequences, and diffEnv on all subsets of the listed keys; that diffEnv/upToDate report for a "
+                  "target what they report for it alone is checked on the real code by running those targets, and generated "
+                  "projects of real sibling targets (15 kinds of change), concurrently under a family of schedules and through the "
+                  "runner's own TargetEvaluating events, against the differing parts computed directly from the two environments.",
     "level_note": "Trusted: Coq kernel; the Go harness's rendering of values and diffs; starlark's EqualDepth/Index/Slice are "
                   "modelled for None/int/string/bytes/tuple/list/dict only (no floats, sets, user types) and validated by the "
                   "sweep. The faithfulness theorems are stated for runs that return a script; the totality theorems show that every "
@@ -84,10 +93,28 @@ def run(ctx):
         ctx.violation("diff harness failed to build or run against /repo (exit %d)" % rc,
                       {"theorem_or_correspondence": "C16 correspondence harness (diff)", "output": o[-3000:]}, found_input=False)
         return
-    rc, o = ctx.go_overlay_test("", {"zz_verif_c16_reason_test.go": os.path.join(HARNESS, "overlay/root/zz_verif_c16_reason_test.go")},
-                                "^TestVerifC16Reason$", {"VERIF_OUT": out2})
+    out3 = os.path.join(ctx.tmp, "c16_targets.tsv")
+    rc, o = ctx.go_overlay_test("", {"zz_verif_c16_reason_test.go": os.path.join(HARNESS, "overlay/root/zz_verif_c16_reason_test.go"),
+                                     "zz_verif_c16_targets_test.go": os.path.join(HARNESS, "overlay/root/zz_verif_c16_targets_test.go")},
+                                "^TestVerifC16(Reason|Targets)$",
+                                {"VERIF_OUT": out2, "VERIF_OUT_TARGETS": out3, "VERIF_SEED": str(ctx.seed),
+                                 "VERIF_C16_CONC_MS": "1500" if quick else "6000",
+                                 "VERIF_C16_PROJECTS": "3" if quick else "8",
+                                 "VERIF_C16_RUNS": "40" if quick else "150"})
     if rc != 0:
         ctx.log(o[-3000:])
+        # the process died (e.g. a panic on a goroutine of the runner): what the oracles saw before that is still a
+        # concrete failing input
+        for src in (out2, out3):
+            if os.path.exists(src):
+                for line in open(src):
+                    f = line.rstrip("\n").split("\t")
+                    if f[0] == "ORACLE" and len(f) >= 4:
+                        ctx.violation("implementation violates C16 oracle %s: %s" % (f[1], " | ".join(f[4:])[:600]),
+                                      {"oracle": f[1], "inputs": [x[:6000] for x in f[2:4]], "observed": [x[:2000] for x in f[4:]],
+                                       "how": "harness/overlay/root/zz_verif_c16_reason_test.go / zz_verif_c16_targets_test.go; "
+                                              "the harness process then died, see the next violation"})
+                        break
         ctx.violation("reason harness failed to build or run against /repo (exit %d)" % rc,
                       {"theorem_or_correspondence": "C16 correspondence harness (diffEnv)", "output": o[-3000:]}, found_input=False)
         return
@@ -128,6 +155,19 @@ def run(ctx):
             dist[key] = dist.get(key, 0) + 1
             show = [f[1], "stamp=" + {"0": "error", "1": "equal", "2": "differs"}[f[2]], f[3][:300], f[4][:300], f[5], f[6], unhex(f[7]).decode("latin-1")]
             cases.append(("env", "CEnv %s %s %s %s" % ({"0": "StampErr", "1": "StampEqual", "2": "StampDiffers"}[f[2]], f[3], f[4], exp), show))
+    conc = []
+    target_rows = 0
+    for src in (out2, out3):
+        for line in open(src):
+            f = line.rstrip("\n").split("\t")
+            if f[0] == "CONC":
+                conc.append(f[1:])
+            elif f[0] == "T":
+                target_rows += 1
+                key = "target-" + f[3] + ":" + (f[4] or "up-to-date")
+                dist[key] = dist.get(key, 0) + 1
+            elif f[0] == "ORACLE" and src == out3:
+                oracles.append(f)
     cases.append(("keys", "CKeys %s" % cq_list([cq_bytes(k) for k in keys], "str"), ["functionEnvKeys"] + [k.decode() for k in keys]))
 
     src_rs = route_size_from_source()
@@ -145,21 +185,44 @@ def run(ctx):
         "{absent,1,2,(0,1)} to %s keys (new dict built in reverse key order) and 9^4 two-key dicts with nested tuple/dict/"
         "string values; 11^2 literal pairs; nesting depths 7..12 around the EqualDepth limit; %s seeded random sequences "
         "of length <= 12; 3 pairs of ~1500-element tuples that exhaust the route table (oracle only); diffEnv on all 2^9 "
-        "subsets of functionEnvKeys x (unlisted key differs or not). distinct = by full case text; non-trivial = not equal"
+        "subsets of functionEnvKeys x (unlisted key differs or not); the same %d hand-built targets checked CONCURRENTLY as siblings (8 schedules: 2..64 goroutines x GOMAXPROCS 1..ncpu x seeded orders) and %s generated projects of ~16 real sibling targets x 15 change kinds (constants, universals, globals, predeclared attributes, nested functions, default parameters, free variables, code) checked alone, concurrently through upToDate (5 schedules each) and through the runner's TargetEvaluating events (%s dry runs each) against the parts computed directly from the two environments. distinct = by full case text; non-trivial = not equal"
         % (env["VERIF_MAXLEN"], env["VERIF_MAXLEN_OTHER"], int(env["VERIF_MAXLEN_NESTED"]) + 1, env["VERIF_MAXLEN_NESTED"],
-           env["VERIF_DICTKEYS"], env["VERIF_NRAND"]))
+           env["VERIF_DICTKEYS"], env["VERIF_NRAND"], sum(1 for c in cases if c[0] == "env"),
+           "3" if quick else "8", "40" if quick else "150"))
     ctx.coverage["exhaustive"] = True
     ctx.coverage["correspondence"]["distribution"] = dist
     ctx.coverage["correspondence"]["route_size"] = route_size
+    ctx.coverage["correspondence"]["concurrent_sibling_schedules"] = {
+        "schedules": len(conc), "checks": sum(int(c[2]) for c in conc), "failures": sum(int(c[3]) for c in conc),
+        "real_targets": target_rows, "by_family": conc}
     ctx.coverage["correspondence"]["route_table_exhaustion_cases"] = [b[1:] for b in big]
     step = max(1, len(cases) // 5)
     ctx.add_samples([c[2] for c in cases[step // 2::step]][:5])
 
-    for f in oracles[:10]:
-        ctx.violation("implementation violates C16 oracle %s" % f[1],
-                      {"oracle": f[1], "inputs": [x[:2000] for x in f[2:4]], "observed": [x[:2000] for x in f[4:]],
-                       "how": "diff.Diff(a, b) / function.diffEnv on the given values (term language of coq/Diff/Run.v); "
-                              "see harness/overlay/diff/zz_verif_c16_test.go, harness/overlay/root/zz_verif_c16_reason_test.go"})
+    per_oracle = {}
+    shown = []
+    for f in oracles:               # at most 3 reports per oracle, so that every oracle that failed is represented
+        per_oracle[f[1]] = per_oracle.get(f[1], 0) + 1
+        if per_oracle[f[1]] <= 3:
+            shown.append(f)
+    ctx.coverage["correspondence"]["oracle_failures"] = per_oracle
+    for f in shown[:10]:
+        inputs = []
+        for x in f[2:4]:
+            if x.startswith("BUILD.dawn v") and "(hex) " in x:      # a generated project: show the text
+                head, hx = x.split("(hex) ", 1)
+                x = head.replace(" (hex)", "") + ":\n" + unhex(hx).decode("latin-1")
+            inputs.append(x[:6000])
+        what = "implementation violates C16 oracle %s" % f[1]
+        if "sibling" in f[1] or "runner" in f[1]:
+            what += ": " + " | ".join(f[4:])[:600]
+        ctx.violation(what,
+                      {"oracle": f[1], "inputs": inputs, "observed": [x[:2000] for x in f[4:]],
+                       "how": "diff.Diff(a, b) / function.diffEnv on the given values (term language of coq/Diff/Run.v); for the "
+                              "'sibling'/'runner' oracles: the given target checked (diffEnv / upToDate / a dry run of //:all) "
+                              "while its sibling targets are checked on other goroutines, as the runner does; "
+                              "see harness/overlay/diff/zz_verif_c16_test.go, harness/overlay/root/zz_verif_c16_reason_test.go, "
+                              "harness/overlay/root/zz_verif_c16_targets_test.go"})
     for b in big:
         if len(b) < 3 or not b[2].startswith("ok"):
             ctx.violation("implementation violates C16 on a route-table-exhausting pair %s: %s" % (b[1], b[2:]),
